@@ -10,6 +10,7 @@ A term that differs is reported with both normal forms.
 """
 import ast
 import copy
+from .core import copy_ast
 
 from .core import AnalysisError, FuncInfo, Module, canon, dotted, names_loaded, src, walk_shallow, target_names
 
@@ -56,9 +57,25 @@ def module_constants(mod, _depth=0):
     return out
 
 
+_TREES = {}
+_TEMPLATES = {}
+
+
 def template_func(source, name=None, closure=False):
     from .core import normalise_tree
-    tree = normalise_tree(ast.parse(source))
+    key = (hash(source), len(source), name, closure)
+    if key in _TEMPLATES:
+        return _TEMPLATES[key]
+    tkey = key[:2]
+    if tkey not in _TREES:
+        _TREES[tkey] = normalise_tree(ast.parse(source))
+    tree = _TREES[tkey]
+    fi = _template_func(tree, name, closure)
+    _TEMPLATES[key] = fi
+    return fi
+
+
+def _template_func(tree, name, closure):
     fns = [n for n in tree.body if isinstance(n, ast.FunctionDef)]
     if name:
         fns = [f for f in fns if f.name == name]
@@ -195,7 +212,7 @@ def _collect(fi, inline_depth=60, keep=()):
                 elif s.orelse and terminates(s.orelse) and not terminates(s.body):
                     ctx = ctx + [('if', t_in)]
             elif isinstance(s, ast.For):
-                c = ('for', copy.deepcopy(s.target), inl(s.iter, s))
+                c = ('for', copy_ast(s.target), inl(s.iter, s))
                 visit(s.body, ctx + [c])
                 visit(s.orelse, ctx)
             elif isinstance(s, ast.While):
@@ -220,7 +237,7 @@ def _collect(fi, inline_depth=60, keep=()):
                 for t in s.targets:
                     for tt in (t.elts if isinstance(t, (ast.Tuple, ast.List)) else [t]):
                         if isinstance(tt, (ast.Subscript, ast.Attribute)):
-                            tl = copy.deepcopy(tt)
+                            tl = copy_ast(tt)
                             tl.ctx = ast.Load()
                             effects.append(Effect('store', list(ctx), inl(tl, s), inl(s.value, s), s))
                 # loop-carried / multiply-defined locals cannot be inlined: keep as named effects
@@ -231,7 +248,7 @@ def _collect(fi, inline_depth=60, keep=()):
                         for i, nm in enumerate(target_names(t)):
                             cands.append(Effect('bind:' + nm, list(ctx), ast.Constant(value=i), inl(s.value, s), s))
             elif isinstance(s, ast.AugAssign):
-                tl = copy.deepcopy(s.target)
+                tl = copy_ast(s.target)
                 tl.ctx = ast.Load()
                 v = ast.BinOp(left=tl, op=s.op, right=s.value)
                 ast.copy_location(v, s)
@@ -257,7 +274,9 @@ def _collect(fi, inline_depth=60, keep=()):
             effects.append(Effect('default:' + p_.arg, [], None, d_, fi.node))
     for d_ in fi.node.decorator_list:
         nm = dotted(d_.func if isinstance(d_, ast.Call) else d_) or ''
-        if nm.split('.')[-1] in ('lru_cache', 'cache', 'cached_property', 'memoize', 'memoized'):
+        # a decorator replaces the function by whatever it returns: only the ones that leave the call's result alone are ignored
+        if nm.split('.')[-1] not in ('staticmethod', 'classmethod', 'property', 'abstractmethod', 'jit', 'njit', 'for_examples', 'wraps', 'no_grad', 'inference_mode') \
+                and not nm.endswith('.setter'):
             effects.append(Effect('decorator', [], None, d_, fi.node))
     visit(fi.node.body, [])
     # binds are effects only for locals that survive inlining somewhere (loop-carried, mutated, multiply defined)
@@ -301,9 +320,131 @@ def _multi_def(flow, name):
     return n > 1
 
 
+class HelperInliner:
+    """Replaces calls of *simple* repo helpers (whose only effect is one unconditional `return <expr>`) by that
+    expression with the arguments substituted, so that extracting such a helper, or inlining one, changes nothing.
+    Names are resolved from the module / class of the repository function under comparison, for both sides."""
+
+    def __init__(self, anchor_fi, depth=2):
+        self.fi = anchor_fi
+        self.repo = getattr(anchor_fi.module, 'repo', None)
+        self.depth = depth
+        if self.repo is not None and not hasattr(self.repo, '_simple_cache'):
+            self.repo._simple_cache = {}
+        self._cache = self.repo._simple_cache if self.repo is not None else {}
+        self._rcache = {}
+
+    def resolve(self, call):
+        if self.repo is None:
+            return None, False
+        f = call.func
+        key = dotted(f)
+        if key is None:
+            return None, False
+        if key not in self._rcache:
+            self._rcache[key] = self._resolve(call)
+        return self._rcache[key]
+
+    def _resolve(self, call):
+        f = call.func
+        if isinstance(f, ast.Attribute) and isinstance(f.value, ast.Name) and f.value.id == 'self' and self.fi.cls:
+            cq = '%s:%s' % (self.fi.module.name, self.fi.cls)
+            m = self.repo.find_method(cq, f.attr) if cq in self.repo.classes else None
+            return m, True
+        nm = dotted(f)
+        if nm:
+            q = self.repo.resolve_dotted(self.fi.module, nm)
+            if q in self.repo.funcs:
+                callee = self.repo.funcs[q]
+                if callee.cls is None or any(dotted(d) == 'staticmethod' for d in callee.node.decorator_list):
+                    return callee, False
+        return None, False
+
+    def simple(self, callee):
+        if callee.qual in self._cache:
+            return self._cache[callee.qual]
+        self._cache[callee.qual] = None
+        res = None
+        try:
+            if not any(isinstance(n, (ast.Yield, ast.YieldFrom, ast.Await)) for n in ast.walk(callee.node)) and callee.qual != self.fi.qual:
+                c = canonical_func(callee)
+                effs = [e for e in _collect(c) if not e.kind.startswith('default')]
+                a = c.node.args
+                if len(effs) == 1 and effs[0].kind == 'return' and not effs[0].ctx and effs[0].value is not None and not a.vararg and not a.kwarg:
+                    locals_ = {d.name for ds in c.flow.defs_at.values() for d in ds if d.kind != 'param'}
+                    v = effs[0].value
+                    if not any(isinstance(n, ast.Name) and n.id in locals_ and n.id not in c.params for n in ast.walk(v)):
+                        res = (c, v)
+        except (AnalysisError, RecursionError):
+            res = None
+        self._cache[callee.qual] = res
+        return res
+
+    def expand(self, expr, depth=None):
+        depth = self.depth if depth is None else depth
+        if expr is None or depth <= 0:
+            return expr
+        if not any(isinstance(n, ast.Call) and self.resolve(n)[0] is not None and self.simple(self.resolve(n)[0]) is not None for n in ast.walk(expr)):
+            return expr
+        me = self
+
+        class T(ast.NodeTransformer):
+            def visit_Call(self, node):
+                self.generic_visit(node)
+                callee, is_method = me.resolve(node)
+                if callee is None:
+                    return node
+                simp = me.simple(callee)
+                if simp is None:
+                    return node
+                c, v = simp
+                a = c.node.args
+                names = [x.arg for x in a.posonlyargs + a.args]
+                if is_method or (callee.cls is not None and names and names[0] in ('self', 'cls') and not any(dotted(d) == 'staticmethod' for d in callee.node.decorator_list)):
+                    bound = {names[0]: node.func.value if isinstance(node.func, ast.Attribute) else ast.Name(id='self', ctx=ast.Load())}
+                    names = names[1:]
+                else:
+                    bound = {}
+                if any(isinstance(x, ast.Starred) for x in node.args) or any(k.arg is None for k in node.keywords) or len(node.args) > len(names):
+                    return node
+                for n_, arg in zip(names, node.args):
+                    bound[n_] = arg
+                kwonly = [x.arg for x in a.kwonlyargs]
+                for k in node.keywords:
+                    if k.arg in bound or (k.arg not in names and k.arg not in kwonly):
+                        return node
+                    bound[k.arg] = k.value
+                allpos = a.posonlyargs + a.args
+                for p_, d_ in zip(allpos[len(allpos) - len(a.defaults):], a.defaults):
+                    bound.setdefault(p_.arg, d_)
+                for p_, d_ in zip(a.kwonlyargs, a.kw_defaults):
+                    if d_ is not None:
+                        bound.setdefault(p_.arg, d_)
+                need_ = set(x.arg for x in allpos + a.kwonlyargs)
+                if not need_ <= set(bound):
+                    return node
+                shadow = set()
+                for n2 in ast.walk(v):
+                    if isinstance(n2, ast.comprehension):
+                        shadow |= set(target_names(n2.target))
+                    elif isinstance(n2, ast.Lambda):
+                        shadow |= {x.arg for x in n2.args.args}
+                if shadow & set(bound):
+                    return node
+
+                class S(ast.NodeTransformer):
+                    def visit_Name(self, n3):
+                        if isinstance(n3.ctx, ast.Load) and n3.id in bound:
+                            return copy_ast(bound[n3.id])
+                        return n3
+                out = S().visit(copy_ast(v))
+                return me.expand(out, depth - 1)
+        return T().visit(copy_ast(expr))
+
+
 def _comp_rename(e):
     """Rename comprehension / lambda variables positionally inside an expression (de Bruijn-like)."""
-    e = copy.deepcopy(e)
+    e = copy_ast(e)
     counter = [0]
 
     def rn(node, mapping):
@@ -340,7 +481,7 @@ def _comp_rename(e):
     return e
 
 
-def local_signatures(fi, params, surviving=None, keep=()):
+def local_signatures(fi, params, surviving=None, keep=(), helper=None):
     """Stable names for locals: a hash of the canonical form of their first definition."""
     import hashlib
     flow = fi.flow
@@ -371,6 +512,8 @@ def local_signatures(fi, params, surviving=None, keep=()):
                 v = flow.inline(v, d.stmt, stop=keep) if d.stmt is not None and d.kind in ('assign', 'aug') else v
             except AnalysisError:
                 pass
+            if helper is not None:
+                v = helper.expand(v)
             v = _comp_rename(v)
             rn = {}
             for n in ast.walk(v):
@@ -407,7 +550,7 @@ def canonical_func(fi):
     conditionals with a negated test (`not c`, `!=`, `is not`, `not in`, `>`, `>=`) turned around."""
     if getattr(fi, '_canonical', None) is not None:
         return fi._canonical
-    node = copy.deepcopy(fi.node)
+    node = copy_ast(fi.node)
 
     class C(ast.NodeTransformer):
         def visit_AnnAssign(self, n):
@@ -462,10 +605,15 @@ def canonical_func(fi):
     return new
 
 
-def effects(fi, keep=(), use_semiring=True):
+def effects(fi, keep=(), use_semiring=True, helper=None):
     """Canonical effect list of a function."""
     fi = canonical_func(fi)
     effs = _collect(fi, keep=keep)
+    if helper is not None:
+        for e in effs:
+            e.target = helper.expand(e.target)
+            e.value = helper.expand(e.value)
+            e.ctx = [tuple(helper.expand(x) if isinstance(x, ast.AST) else x for x in c) for c in e.ctx]
     params = [p for p in fi.params]
     surviving = set()
     for e in effs:
@@ -474,7 +622,7 @@ def effects(fi, keep=(), use_semiring=True):
                 surviving |= {n.id for n in ast.walk(x) if isinstance(n, ast.Name)}
         if e.kind.startswith(('bind:', 'aug:')):
             surviving.add(e.kind.split(':', 1)[1])
-    rename = local_signatures(fi, params, surviving, set(keep) | mutated_locals(fi))
+    rename = local_signatures(fi, params, surviving, set(keep) | mutated_locals(fi), helper)
     # free variables of a closure that are locals of the enclosing function: named by order of appearance
     import builtins
     known_globals = set(dir(builtins)) | {'np', 'numpy', 'torch', 'math', 'cv2', 'F', 'ET', 're', 'os', 'sys', 'json', 'logger', 'logging', 'self'}
@@ -534,8 +682,9 @@ def effects(fi, keep=(), use_semiring=True):
 
 def compare(fi, tmpl, keep=()):
     """-> (equal, missing-in-code [Effect of template], extra-in-code [Effect of code])."""
-    a = effects(fi, keep)
-    b = effects(tmpl, keep)
+    helper = HelperInliner(fi) if getattr(fi.module, 'repo', None) is not None else None
+    a = effects(fi, keep, helper=helper)
+    b = effects(tmpl, keep, helper=helper)
     ka = [e.key for e in a]
     kb = [e.key for e in b]
     extra = []
@@ -611,6 +760,189 @@ def compare(fi, tmpl, keep=()):
                 eb_copy.key = eb.key
                 return False, [eb_copy], [ea_copy]
     return (not extra and not missing), missing, extra
+
+
+def statement_list(fi):
+    """The function as a flat list of normalised statements (no inlining): simple statements and the headers of
+    compound ones, parameters by position, locals renamed by order of first appearance."""
+    fi = canonical_func(fi)
+    params = list(fi.params)
+    order = {}
+
+    def rn(e):
+        # raw local names on purpose: this list only measures HOW MUCH a function that already differs was edited
+        return
+    local_names = {d.name for ds in fi.flow.defs_at.values() for d in ds if d.kind != 'param'}
+    for n in ast.walk(fi.node):
+        if isinstance(n, ast.comprehension):
+            local_names |= set(target_names(n.target))
+        elif isinstance(n, ast.Lambda):
+            local_names |= {a.arg for a in n.args.args}
+    out = []
+
+    def visit(body, depth):
+        for s in body:
+            if isinstance(s, ast.Expr) and isinstance(s.value, ast.Constant) and isinstance(s.value.value, str):
+                continue
+            if isinstance(s, ast.Pass):
+                continue
+            if isinstance(s, ast.Expr) and isinstance(s.value, ast.Call) and ((dotted(s.value.func) or '') == 'print' or (dotted(s.value.func) or '').startswith(('logger.', 'logging.'))):
+                continue
+            if isinstance(s, (ast.If, ast.While)):
+                rn(s.test)
+                out.append((depth, type(s).__name__, canon(s.test, params, order)))
+                visit(s.body, depth + 1)
+                if s.orelse:
+                    out.append((depth, 'else'))
+                    visit(s.orelse, depth + 1)
+            elif isinstance(s, ast.For):
+                rn(s.iter)
+                rn(s.target)
+                out.append((depth, 'For', canon(s.target, params, order), canon(s.iter, params, order)))
+                visit(s.body, depth + 1)
+                if s.orelse:
+                    out.append((depth, 'else'))
+                    visit(s.orelse, depth + 1)
+            elif isinstance(s, ast.Try):
+                out.append((depth, 'Try'))
+                visit(s.body, depth + 1)
+                for h in s.handlers:
+                    out.append((depth, 'except', canon(h.type, params, order) if h.type is not None else None))
+                    visit(h.body, depth + 1)
+                visit(s.orelse, depth + 1)
+                visit(s.finalbody, depth + 1)
+            elif isinstance(s, ast.With):
+                for it in s.items:
+                    rn(it.context_expr)
+                out.append((depth, 'With') + tuple(canon(it.context_expr, params, order) for it in s.items))
+                visit(s.body, depth + 1)
+            elif isinstance(s, (ast.FunctionDef, ast.ClassDef, ast.AsyncFunctionDef)):
+                out.append((depth, 'def', s.name))
+            else:
+                rn(s)
+                if isinstance(s, ast.Assign):
+                    out.append((depth, 'Assign', tuple(canon(t, params, order) for t in s.targets), canon(s.value, params, order)))
+                elif isinstance(s, ast.AugAssign):
+                    out.append((depth, 'Aug', type(s.op).__name__, canon(s.target, params, order), canon(s.value, params, order)))
+                elif isinstance(s, ast.Return):
+                    out.append((depth, 'Return', canon(s.value, params, order) if s.value is not None else None))
+                elif isinstance(s, ast.Expr):
+                    out.append((depth, 'Expr', canon(s.value, params, order)))
+                elif isinstance(s, ast.Raise):
+                    out.append((depth, 'Raise'))
+                elif isinstance(s, ast.Assert):
+                    out.append((depth, 'Assert', canon(s.test, params, order)))
+                else:
+                    out.append((depth, type(s).__name__))
+    visit(fi.node.body, 0)
+    a_ = fi.node.args
+    for d_ in list(a_.defaults) + [d for d in a_.kw_defaults if d is not None]:
+        out.insert(0, (0, 'default', canon(d_, params, order)))
+    return out
+
+
+def statement_shape(fi):
+    """Hashes of the function's statements in order; nesting depth and bare 'else' markers are left out (an added guard
+    with an early exit re-nests, but does not edit, what follows)."""
+    import hashlib
+    return [hashlib.sha1(repr(x[1:]).encode()).hexdigest()[:8] for x in statement_list(fi) if x[1] != 'else']
+
+
+_SHAPES = None
+
+
+def reviewed_shape(qual):
+    global _SHAPES
+    if _SHAPES is None:
+        import json, os
+        p = os.path.join(os.path.dirname(__file__), 'refs', 'shapes.json')
+        _SHAPES = json.load(open(p)) if os.path.exists(p) else {}
+    return _SHAPES.get(qual)
+
+
+def statement_diff(fi, tmpl):
+    """Size of the statement-level difference between a function and its reviewed shape (refs/shapes.json; the reference
+    form when the function has none): (statements deleted + inserted + replaced, number of reviewed statements).
+    Only a MEASURE of how much was rewritten, used to tell a local deviation from a restructuring."""
+    a = reviewed_shape(fi.qual) or statement_shape(tmpl)
+    return shape_diff(a, statement_shape(fi)), len(a)
+
+
+def shape_diff(a, b):
+    import difflib
+    sm = difflib.SequenceMatcher(None, a, b, autojunk=False)
+    changed = 0
+    for tag, i1, i2, j1, j2 in sm.get_opcodes():
+        if tag != 'equal':
+            changed += max(i2 - i1, j2 - j1)
+    return changed
+
+
+def _tokens(k, out=None):
+    out = [] if out is None else out
+    if isinstance(k, tuple):
+        out.append('(')
+        for x in k:
+            _tokens(x, out)
+        out.append(')')
+    else:
+        out.append(str(k))
+    return out
+
+
+def classify(missing, extra, n_ref):
+    """Is the difference between a function and its reference form a LOCAL deviation (a few statements changed a
+    little, deleted or added: reported as a violation) or a RESTRUCTURING beyond the equivalences (many or unrecognisably
+    different effects: the checker cannot decide and says so)?  -> ('local' | 'restructured', explanation)"""
+    import difflib
+    if not missing and not extra:
+        return 'equal', ''
+
+    def shape(k):
+        # names of surviving locals are hashes of their definitions: one changed definition renames every use.
+        # For judging how MUCH changed, such renamings are neutralised.
+        if isinstance(k, tuple):
+            if len(k) == 2 and k[0] == 'sym':
+                return ('sym',)
+            return tuple(shape(x) for x in k)
+        if isinstance(k, str) and k.startswith(('bind:', 'aug:')):
+            return 'bind'
+        if isinstance(k, str) and k.startswith('order:'):
+            return shape(k[6:])
+        return k
+    M = list(missing)
+    X = list(extra)
+    # effects that differ only by such renamings are not changes
+    sx = [shape(x.key) for x in X]
+    for m in list(M):
+        sm = shape(m.key)
+        if sm in sx:
+            i = sx.index(sm)
+            sx.pop(i)
+            X.pop(i)
+            M.remove(m)
+    if not M and not X:
+        # only definitions-renamed effects differ: some definition changed; find it among the binds
+        return 'local', 'only the definition of a carried / mutated local differs'
+    pairs = []
+    for m in list(M):
+        best, bs = None, 0.0
+        tm = _tokens(shape(m.key))
+        for x in X:
+            s = difflib.SequenceMatcher(None, tm, _tokens(shape(x.key)), autojunk=False).ratio()
+            if s > bs:
+                best, bs = x, s
+        if best is not None and bs >= 0.72:
+            pairs.append((m, best, bs))
+            M.remove(m)
+            X.remove(best)
+    changed = len(pairs) + len(M) + len(X)
+    why = '%d modified, %d missing, %d added of %d effects' % (len(pairs), len(M), len(X), n_ref)
+    if M and X:
+        return 'restructured', why + ' (statements rewritten beyond recognition)'
+    if changed > max(3, int(0.3 * n_ref)):
+        return 'restructured', why + ' (too many statements differ)'
+    return 'local', why
 
 
 def contains(fi, tmpl, keep=()):
